@@ -26,6 +26,7 @@ struct FakeDir {
 std::set<FakeDir*> g_fake;
 sim::DirSimConfig g_cfg;
 int g_handles = 0;
+sim::DirSimStats g_stats;
 
 template <class F>
 F resolve(std::atomic<void*>& slot, const char* name) {  // no guarded function-local statics in seam code (see detsim.cpp)
@@ -74,6 +75,7 @@ bool inside_root(const char* name) {
 namespace sim {
 void set_dirsim(const DirSimConfig& c) { g_cfg = c; }
 int open_handles() { return g_handles; }
+DirSimStats dirsim_stats() { return g_stats; }
 void reset_handle_count() { g_handles = 0; }
 }  // namespace sim
 
@@ -90,13 +92,18 @@ DIR* opendir(const char* name) {
     while (dirent* e = r_readdir(d)) f->ents.push_back(*e);
     f->real = d;
     // order decided by the simulator (Fisher-Yates over recorded choices), '.' and '..' land anywhere
+    bool moved = false;
     for (size_t i = 0; i + 1 < f->ents.size(); i++) {
         size_t j = i + (size_t)sim::choose((int)(f->ents.size() - i), 0);
+        if (j != i) moved = true;
         std::swap(f->ents[i], f->ents[j]);
     }
+    g_stats.streams++;
+    g_stats.entries += f->ents.size();
+    g_stats.reordered_streams += moved;
     if (g_cfg.unknown_dtype_rate > 0)
         for (auto& e : f->ents)
-            if (sim::choose(4, 0) == 1) e.d_type = DT_UNKNOWN;
+            if (sim::choose(4, 0) == 1) { e.d_type = DT_UNKNOWN; g_stats.unknown_dtype++; }
     if (f->ents.size() > 3) sim::note_nontrivial();
     g_fake.insert(f);
     g_handles++;
